@@ -1,6 +1,6 @@
 SPECIFICATION Spec
 CONSTANTS
-  Mods = {"ma", "mb", "mc"}
-  Family = "flat2"
+  Mods = {"ma", "mb", "mc", "md"}
+  Families = {"uniform", "sample"}
 INVARIANTS TypeOK RunOnce NoReentry OneObject Provenance StarRespectsUnderscore Terminates Usable Emit
 CHECK_DEADLOCK FALSE
